@@ -71,7 +71,7 @@ def step (s : St) (line : String) : St × String :=
   | ["run"] => answer (AnySync.Deletion.step s .run)
   | ["restart", v] => match parseView v with | some v => answer (AnySync.Deletion.step s (.restart v)) | none => (s, "bad-op")
   | ["crash", k, v] => match k.toNat?, parseView v with
-    | some k, some v => answer (stepCrash s k v) | _, _ => (s, "bad-op")
+    | some k, some v => answer (AnySync.Deletion.step s (.crash k v)) | _, _ => (s, "bad-op")
   | ["deliver", v] => match parseView v with | some v => answer (AnySync.Deletion.step s (.deliver v)) | none => (s, "bad-op")
   | ["del", k, sn] =>
     match k.toNat?, (if sn = "s" then some true else if sn = "n" then some false else none) with
